@@ -33,11 +33,12 @@ def bounds(tier):
     q = tier == "quick"
     return {"struct": [[2, 3, ("nand", "nor", "xor", "not", "and", "buf")], [3, 3, ("nand", "nor", "xor", "not")]] if q
             else [[2, 3, space.ALL_GATES], [3, 3, ("nand", "nor", "xor", "not", "or")], [2, 4, ("nand", "xor", "not")], [4, 3, ("nand", "nor", "not")]],
-            "wide": [[3, 2, 4]] if q else [[3, 2, 4], [4, 2, 4], [3, 3, 3]]}
+            "wide": [[3, 2, 4]] if q else [[3, 2, 4], [4, 2, 4], [3, 3, 3]],
+            "shared": [4, 4, ("and", "not")] if q else [4, 4, ("and", "not", "xor")]}
 
 
 def jobs(tier, seed):
-    n = 24 if tier == "quick" else 128
+    n = 48 if tier == "quick" else 192
     js = [{"sub": "struct", "chunk": i, "of": n} for i in range(n)]
     m = 8 if tier == "quick" else 48
     js += [{"sub": "wide", "chunk": i, "of": m} for i in range(m)]
@@ -187,6 +188,15 @@ def descs_struct(tier):
                 if live_only(d2):
                     yield d2
     yield EXAMPLE
+    # constants inside output cones
+    for gates in space.circuits(2, 2, types=("nand", "nor", "xor", "not", "and"), max_arity=2, consts=("0", "1"), min_gates=1):
+        d = space.to_desc(2, gates, consts=("0", "1"), outputs="sinks")
+        if live_only(d) and not any(x[1] in ("0", "1") and x[3] for x in d["nodes"]):
+            yield d
+    # several outputs sharing logic: every gate is an output
+    I, G, types = bounds(tier)["shared"]
+    for gates in space.circuits(I, G, types=types, max_arity=2, min_gates=G):
+        yield space.to_desc(I, gates, outputs="gates")
 
 
 def descs_wide(tier):
